@@ -45,7 +45,9 @@ def main(argv=None):
         print("%s: %d obligations over %d functions, %d held, %d failed; tier=%s%s" % (
             a.prop, nob, len(rep.functions), sum(1 for o in rep.obs if o["ok"]),
             len(rep.failures()), tier,
-            (", self-test %d/%d variants ok" % (rep.selftest["ok"], rep.selftest["total"]))
+            (", self-test %d/%d variants ok, %d/%d seeded changes still caught (%d stale)" % (
+                rep.selftest["ok"], rep.selftest["total"], rep.selftest.get("seeded_caught", 0),
+                rep.selftest.get("seeded_total", 0), rep.selftest.get("seeded_stale", 0)))
             if rep.selftest else ""))
         if a.replay:
             import json
